@@ -1074,7 +1074,9 @@ func SearchStreams(ctx context.Context, indexes []*Reader, limitIDs *bitmask.Lon
 
 			sortingLookup := (func() ([]uint32, error))(nil)
 			if resultLimit != 0 {
-				if section, ok := sorterLookupSections[sorting[0].Key]; sorter != nil && ok {
+				// the early exit of the sorted scan compares with the last result using all
+				// sort keys, the lookup is only sorted by the first one
+				if section, ok := sorterLookupSections[sorting[0].Key]; sorter != nil && ok && len(sorting) == 1 {
 					res := []uint32(nil)
 					reverse := sorting[0].Dir == query.SortingDirDescending
 					sortingLookup = func() ([]uint32, error) {
